@@ -97,3 +97,56 @@ Example C19_first_hit_nonvacuous :
   fill_cols (T := Q) 1 4 [[]; []] [0; 1]%nat [EChoice 4 2 [0; 2]%nat; EChoice 4 1 [3]%nat] = Ok ([[3]; [2]]%nat, []) /\
   rows_hit [[]; []] [0; 1]%nat [0; 2]%nat [3; 2]%nat [[3]; []]%nat.
 Proof. split; [vm_compute; reflexivity|]. cbn. unfold row_hit. cbn. repeat split; auto; discriminate. Qed.
+
+(* The probability step, in counting form (no measure theory, every bound L on the number of draws): among ALL n_pop^L sequences of L
+   draws - equally likely under i.i.d. uniform draws - the number of sequences whose first admissible element is a is the same for
+   every admissible a; an inadmissible individual (the target, an earlier column, the fixed best) is delivered by none; the loop is
+   still undecided after L draws on exactly (number of inadmissible individuals)^L sequences.  Together with the theorems above (the
+   parent a row ends with is the first admissible draw of its own history) the delivered parent is uniform over the admissible
+   individuals, conditionally on termination within L draws, for every L. *)
+From PV Require Import Proofs.FirstHitCountP.
+Theorem C19_first_admissible_draw_is_uniform :
+  forall (n_pop : nat) (adm : nat -> bool) (a b L : nat),
+    admissible n_pop adm a = true -> admissible n_pop adm b = true ->
+    count (hit_is adm a) (seqs n_pop L) = count (hit_is adm b) (seqs n_pop L).
+Proof. exact first_admissible_draw_is_uniform. Qed.
+Print Assumptions C19_first_admissible_draw_is_uniform.
+
+Theorem C19_inadmissible_individual_is_never_delivered :
+  forall (n_pop : nat) (adm : nat -> bool) (a L : nat),
+    admissible n_pop adm a = false -> count (hit_is adm a) (seqs n_pop L) = 0%nat.
+Proof. exact inadmissible_never_delivered. Qed.
+Print Assumptions C19_inadmissible_individual_is_never_delivered.
+
+Theorem C19_hit_counts_closed_form :
+  forall (n_pop : nat) (adm : nat -> bool) (a L : nat), admissible n_pop adm a = true ->
+    (count (hit_is adm a) (seqs n_pop L) * (n_pop - nonadm n_pop adm) + nonadm n_pop adm ^ L = n_pop ^ L)%nat /\
+    count (no_hit adm) (seqs n_pop L) = (nonadm n_pop adm ^ L)%nat /\
+    length (seqs n_pop L) = (n_pop ^ L)%nat.
+Proof.
+  intros n_pop adm a L Ha. split; [exact (hit_count_closed n_pop adm a L Ha)|].
+  split; [exact (no_hit_count n_pop adm L)|exact (seqs_length n_pop L)].
+Qed.
+Print Assumptions C19_hit_counts_closed_form.
+
+(* the sequences counted are exactly the possible histories, and the parent of a row (row_hit of the theorems above: history c :: h,
+   delivered value c') is the first admissible element of its history *)
+Theorem C19_row_parent_is_first_hit_of_its_history :
+  forall (n_pop : nat) (row : list nat) (t c c' : nat) (h : list nat),
+    row_hit row t c c' h ->
+    first_hit (fun x => negb (is_bad row t x)) (c :: h) = Some c' /\
+    (Forall (fun x => (x < n_pop)%nat) (c :: h) -> In (c :: h) (seqs n_pop (S (length h)))).
+Proof.
+  intros n_pop row t c c' h [Hl [Hf [Hc _]]]. split.
+  - apply (first_hit_of_history (is_bad row t) (c :: h) c c'); [discriminate| |exact Hf|exact Hc].
+    rewrite Hl. destruct h as [|y h']; [reflexivity|]. cbn [last]. destruct h' as [|z h'']; [reflexivity|].
+    apply last_indep.
+  - intros Hb. apply seqs_spec. split; [reflexivity|exact Hb].
+Qed.
+Print Assumptions C19_row_parent_is_first_hit_of_its_history.
+
+Example C19_uniform_counting_nonvacuous :
+  let adm := fun x => negb ((x =? 2) || (x =? 4))%nat in
+  map (fun a => count (hit_is adm a) (seqs 6 3)) [0; 1; 2; 3; 4; 5]%nat = [52; 52; 0; 52; 0; 52]%nat
+  /\ count (no_hit adm) (seqs 6 3) = 8%nat /\ admissible 6 adm 3 = true.
+Proof. vm_compute. repeat split; reflexivity. Qed.
